@@ -1835,7 +1835,11 @@ def concatenate(
     n_dt_segs = [len(pulse.dt) for pulse in pulses]
     seg_idx = [0] + list(accumulate(n_dt_segs))
     for i, (pulse, idx) in enumerate(zip(pulses, n_opers_present)):
-        control_matrix_atomic[i, idx] = pulse.get_control_matrix(omega, show_progressbar)
+        # The rows of the pulse's control matrix are sorted by its own
+        # identifiers; sort them by the (possibly remapped) new identifiers
+        sort_idx = np.argsort([n_oper_mapping[i][identifier]
+                               for identifier in pulse.n_oper_identifiers])
+        control_matrix_atomic[i, idx] = pulse.get_control_matrix(omega, show_progressbar)[sort_idx]
         if not idx.all():
             # calculate the control matrix for the noise operators that are
             # not present in pulse
